@@ -32,8 +32,8 @@ const (
 	c18SiteLog      = "logProvider"      // log trigger flow      : GetLatestPayloads   (Process goroutine)
 	c18SiteRecov    = "recoveryProvider" // recovery proposal flow: GetRecoveryProposals (Process goroutine)
 	c18SiteGetter   = "upkeepGetter"     // conditional sampler   : GetActiveUpkeeps     (Process goroutine)
-	c18SiteEvents   = "eventsProvider"   // coordinator           : GetLatestEvents      (the service's own goroutine)
-	c18SitePipeline = "pipeline"         // runner                : CheckUpkeeps         (worker-group goroutine)
+	c18SiteEvents   = "eventsProvider"   // coordinator           : GetLatestEvents      (the service's own goroutine, inside safeCheckEvents)
+	c18SitePipeline = "pipeline"         // runner                : CheckUpkeeps         (worker-group goroutine, inside runWorkItem)
 	c18SitePost     = "stateUpdater"     // ineligible post-proc. : SetUpkeepState       (Process goroutine)
 )
 
